@@ -3,6 +3,7 @@ from __future__ import annotations
 
 import math
 import random
+from decimal import Decimal
 import re
 import struct
 from typing import Any
@@ -10,14 +11,17 @@ from typing import Any
 from harness.common import Ck
 from translate import c04_formulas as tr
 from translate import c04_inverse as tri
+from translate import c04_rounded as trr
 
 MANIFEST = dict(
     technique='Rocq proof over R (ring/field/nsatz/nra) on formulas, a dispatch table and a Gauss-Jordan row-operation '
               'program regenerated from math.py by ast symbolic executors / loop unrolling; generic theorems + kernel-checked '
-              'instance obligations (table_ok, gj_prog_ok by abstract interpretation, guard_cfg_ok, aliasing polynomials); '
-              'bit-exact correspondence of the extracted expression trees, of every dispatch row, and of the Gauss-Jordan '
-              'interpreter instantiated with IEEE binary64 (Coq primitive floats); numeric oracle on the complete '
-              'operand-type matrix',
+              'instance obligations (table_ok, gj_prog_ok and gj_total_ok by two abstract interpretations, guard_cfg_ok, '
+              'pitch_ok, aliasing polynomials, rounding-error bounds); running error analysis of the sum-of-products '
+              'formulas for every rounding with |rnd t - t| <= u|t| + eta, instantiated for binary64 with Flocq; '
+              'bit-exact correspondence of the extracted expression trees, of every dispatch row, of the Gauss-Jordan '
+              'interpreter instantiated with IEEE binary64 (Coq primitive floats) and of the rounding model against '
+              'CPython floats; numeric oracle on the complete operand-type matrix and on composed rotations',
     text='Theorems in Props/C04.v, about the objects read out of MatrixBase.from_angle/from_pitch/from_yaw/from_roll/'
          '_mat_mul/_vec_rot/transpose/_to_angle/inverse and the @ methods on every run: from_angle is orthonormal with '
          'determinant 1 and equals roll*pitch*yaw in the row-vector convention (axes fixed, handedness at +90 degrees); '
@@ -25,23 +29,37 @@ MANIFEST = dict(
          'inverse of a rotation; for EVERY straight-line program of pivot-search/row-swap, row-elimination and row-scaling '
          'operations accepted by the decidable test gj_prog_ok (abstract interpretation of the left block over {0,1,unknown}), '
          'whenever the interpreter of the program over the reals returns n for input m then n*m = I, hence n = transpose(m) '
-         'for a rotation m; the program unrolled from today\'s MatrixBase.inverse is accepted (instance obligations); '
+         'for a rotation m; for every program accepted by a second decidable test gj_total_ok (interval / determinant '
+         'abstract interpretation: |entry| in [lo, hi], |det| >= d) the interpreter over the reals RETURNS on every rotation '
+         '(no pivot search, division or threshold test can fail), so inverse() = transpose() on rotations without proviso; '
+         'a conditionally skipped elimination is accepted only when the guard fires for a zero multiplier; the program '
+         'unrolled from today\'s MatrixBase.inverse is accepted by both tests (instance obligations); the largest entry of '
+         'every column of a rotation has square >= 1/3; '
          'Matrix->Angle->Matrix is the identity when the horizontal length of the forward row exceeds 0.001 and within '
          '2*that length entrywise otherwise (atan2 enters as a visible hypothesis); the guard of _to_angle, reified as '
          '(operator, operand polynomial under sqrt, literal), is the engine threshold whenever the three named obligations '
-         'hold; for every (operator form, left class, right class, same-object?) the dispatch table generated from '
+         'hold, and the pitch, reified, is atan2(-forward.z, horizontal length) in both branches (total, no asin of a '
+         'rounded entry); the expression trees of _vec_rot and _mat_mul evaluated with binary64 rounding after every + - * '
+         'are within 2e-15 (unit inputs; 2e-9 for vector components up to 1e6) of their real value for all matrices with '
+         'entries up to 1.000001 (running error analysis proved sound for every tree and rounding; binary64 by Flocq); the '
+         'binary64 arithmetic of from_angle on sin / cos values within d of the real ones gives entries within tol of the exact '
+         'rotation and at most 1 + tol in absolute value (1e-15 for d = 0, 3e-14 for d = 5e-15; libm accuracy is a visible '
+         'hypothesis, measured on sampled angles with 50-digit arithmetic); '
+         'for every (operator form, left class, right class, same-object?) the dispatch table generated from '
          '__matmul__/__rmatmul__/__imatmul__ returns the specification product, a fresh result and unchanged operands '
          '(kernel-checked table_ok = true + generic soundness theorem).  The trees, the table and the inverse program are '
          'compared bit-for-bit with the running implementation; all identities are searched numerically within '
          '1e-9*max(1,|v|).',
-    note='Exact real arithmetic: floating-point rounding is outside the theorems (the property says "up to rounding"); the '
-         'binary64 instance of the Gauss-Jordan interpreter is used only for the correspondence.  Axioms: the classical-reals '
-         'axioms of Coq.Reals only.  Trusted: translate/c04_formulas.py, translate/c04_inverse.py (symbolic executors / loop '
+    note='Exact real arithmetic except for the rounding theorems of _vec_rot/_mat_mul (rounded-real model of binary64: round '
+         'to nearest even after every operation, underflow included, overflow excluded; tied to CPython floats by a bit-exact '
+         'correspondence on sampled inputs) and of the arithmetic of from_angle given libm accuracy; for _to_angle and inverse() floating-point rounding is outside the '
+         'theorems (the property says "up to rounding"); the binary64 instance of the Gauss-Jordan interpreter is used only '
+         'for the correspondence.  Axioms: the classical-reals axioms of Coq.Reals, plus Classical_Prop.classic through Flocq '
+         'for the rounding theorems.  Trusted: translate/c04_formulas.py, translate/c04_inverse.py (symbolic executors / loop '
          'unroller; tied by the bit-exact correspondences; the polynomial expansion of the reified pieces is re-proved by ring), '
-         'libm sin/cos/atan2/sqrt, Coq primitive floats = hardware binary64.  NOT proved: that inverse() returns (does not '
-         'raise) on every rotation - searched only (oracle: inverse() vs transpose() on every sampled rotation, inverse() of '
-         'scaled rotations is a two-sided inverse); so a too-large diagonal threshold or a pivot search that skips rows is '
-         'caught by the search, not by an obligation.  The Cython twin _math.pyx cannot be built and is not verified.',
+         'libm sin/cos/atan2/sqrt, Coq primitive floats = hardware binary64.  inverse() returning on every rotation is proved in exact arithmetic only: the 1e-5 '
+         'threshold is passed with the proved margins (|pivot| bounds of the final intervals), but no float error bound for '
+         'the elimination is proved.  The Cython twin _math.pyx cannot be built and is not verified.',
 )
 
 CONCRETE = tr.CONCRETE
@@ -49,6 +67,8 @@ KIND = tr.KIND
 DISP_IMPORTS = ['Coq.Lists.List', 'Coq.Bool.Bool', 'SV.Rot.RotDispatch', 'SV.Gen.RotDispatch_gen']
 REIFY_IMPORTS = ['Coq.Lists.List', 'Coq.Bool.Bool', 'SV.Rot.RotReify', 'SV.Gen.RotReified_gen']
 GJ_IMPORTS = ['Coq.Lists.List', 'Coq.Bool.Bool', 'SV.Rot.RotGJ', 'SV.Gen.RotInverse_gen']
+GJT_IMPORTS = ['Coq.Lists.List', 'Coq.Bool.Bool', 'Coq.QArith.QArith', 'SV.Rot.RotGJ', 'SV.Rot.RotGJTotal', 'SV.Gen.RotInverse_gen']
+ROUND_IMPORTS = ['Coq.Lists.List', 'Coq.Bool.Bool', 'Coq.QArith.QArith', 'SV.Rot.RotRound', 'SV.Gen.RotRounded_gen']
 TOL = 1e-9
 GIMBAL = 0.001
 
@@ -729,6 +749,72 @@ def search_identities(ck: Ck, found: dict) -> None:
     ck.sample({'identity_case': {'angle': (90.0 - 1e-7, 30.0, 60.0), 'to_angle': str(__import__('srctools.math', fromlist=['Matrix']).Matrix.from_angle(90.0 - 1e-7, 30.0, 60.0).to_angle())}})
 
 
+# =============================================================================================== composed rotations
+def composed_problem(a: tuple, b: tuple, form: str) -> tuple[str, str] | None:
+    """A rotation obtained by COMPOSITION (entries carry the rounding of _mat_mul: an entry can be 1.0000000000000002)
+    converts to an Angle and back: exactly up to rounding outside the gimbal band, within 2*horizontal length inside,
+    and without an exception.  `form`: how the product is formed and converted."""
+    from srctools.math import Angle, Matrix
+    try:
+        if form == 'matrix':
+            M = Matrix.from_angle(*a) @ Matrix.from_angle(*b)
+            ang = M.to_angle()
+        elif form == 'angle':
+            M = Matrix.from_angle(*a) @ Matrix.from_angle(*b)
+            ang = Angle(*a) @ Angle(*b)
+        else:
+            M = Matrix.from_angle(*a) @ Matrix.from_angle(*b)
+            ang = Angle(*a)
+            ang @= Matrix.from_angle(*b)
+    except Exception as e:      # noqa: BLE001 - every exception on a valid rotation is a finding
+        return 'exception', f'{form}: converting from_angle{a} @ from_angle{b} to an Angle raised {type(e).__name__}: {e}'
+    m = mat_list(M)
+    if maxdiff(ref_mul(m, ref_T(m)), [[1, 0, 0], [0, 1, 0], [0, 0, 1]]) > TOL:
+        return None         # not a rotation up to rounding: reported by the other identities
+    h = horiz_of(m)
+    e = maxdiff(mat_list(Matrix.from_angle(ang)), m)
+    tol = TOL if h > GIMBAL + 1e-9 else 2 * h + TOL + (2 * GIMBAL if abs(h - GIMBAL) <= 1e-9 else 0)
+    if not e <= tol:
+        return ('gimbal' if h <= GIMBAL else 'general'), (f'{form}: from_angle(to_angle(M)) differs from M = from_angle{a} @ '
+                f'from_angle{b} by {e:.3g} (horizontal length {h:.3g}, tolerance {tol:.3g})')
+    return None
+
+
+def search_composed(ck: Ck, found: dict) -> None:
+    """Products of two rotations on the 45-degree grid (thorough: also random rows of the 15-degree grid) whose forward axis
+    comes out vertical (pre-selected with the reference maths: |forward . third column| >= 1 - 1e-12), plus random products."""
+    def grid(step: int) -> list[tuple[float, float, float]]:
+        k = 360 // step
+        return [(float(step * i), float(step * j), float(step * l)) for i in range(k) for j in range(k) for l in range(k)]
+    cands: list[tuple[tuple, tuple, str]] = []
+    for step, rows in ((45, None), (15, ck.budget(0, 60))):
+        G = grid(step)
+        fw = [ref_from_angle(*g)[0] for g in G]
+        col = [[r[2] for r in ref_from_angle(*g)] for g in G]
+        idx_a = range(len(G)) if rows is None else [ck.rng.randrange(len(G)) for _ in range(rows)]
+        for ia in idx_a:
+            fx, fy, fz = fw[ia]
+            for ib, (cx, cy, cz) in enumerate(col):
+                if abs(fx * cx + fy * cy + fz * cz) >= 1 - 1e-12:
+                    cands.append((G[ia], G[ib], f'vertical-grid{step}'))
+    ck.rng.shuffle(cands)
+    n_vert = ck.budget(2500, 12000)
+    cands = cands[:n_vert]
+    for _ in range(ck.budget(300, 3000)):
+        cands.append((gen_angle(ck.rng)[0], gen_angle(ck.rng)[0], 'random'))
+    for k, (a, b, cls) in enumerate(cands):
+        form = ('matrix', 'angle', 'imatmul')[k % 3]
+        ck.count('composed_roundtrip_cases')
+        ck.hist('composed_class', cls)
+        ck.seen(('composed', a, b, form))
+        pr = composed_problem(a, b, form)
+        if pr is None:
+            continue
+        key = f'composed-roundtrip:{pr[0]}'
+        if key not in found:
+            found[key] = (pr[1], {'kind': 'composed', 'a': a, 'b': b, 'form': form})
+
+
 # =============================================================================================== axioms
 def theorems_with_axioms(ck: Ck, props_file: str = 'Props/C04.v') -> None:
     """Same job as Ck.theorems (one `theorem:` obligation per theorem, axioms recorded), with a complete parser:
@@ -737,8 +823,26 @@ def theorems_with_axioms(ck: Ck, props_file: str = 'Props/C04.v') -> None:
     import re
     from harness.common import ROCQ
     names = re.findall(r"^\s*(?:Theorem|Lemma|Corollary)\s+([A-Za-z0-9_']+)", (ROCQ / props_file).read_text(), re.M)
-    body = 'Require Import SV.Props.C04.\n' + ''.join(f'Print Assumptions {n}.\n' for n in names)
-    rc, out = ck.coq_scratch(body, 'assumptions')
+    # Print Assumptions walks the whole dependency graph of its argument (more than a second per theorem over Coq.Reals).
+    # Quick tier: ONE traversal of the tuple of all theorems = the union of their axioms (recorded for every theorem as an
+    # upper bound).  Thorough tier: one traversal per theorem, spread over several coqc processes side by side.
+    from concurrent.futures import ThreadPoolExecutor
+    union_only = not ck.thorough
+    if union_only:
+        rc, out = ck.coq_scratch('Require Import SV.Props.C04.\nDefinition c04_all_theorems := (' + ', '.join(names) + ').\n'
+                                 'Print Assumptions c04_all_theorems.\n', 'assumptions')
+    else:
+        nchunk = min(8, max(1, len(names)))
+        chunks = [names[i::nchunk] for i in range(nchunk)]
+
+        def one(k: int) -> tuple[int, str]:
+            return ck.coq_scratch('Require Import SV.Props.C04.\n' + ''.join(f'Print Assumptions {n}.\n' for n in chunks[k]),
+                                  f'assumptions{k}')
+        with ThreadPoolExecutor(max_workers=nchunk) as ex:
+            results = list(ex.map(one, range(nchunk)))
+        rc = max(r[0] for r in results)
+        out = '\n'.join(r[1] for r in results)
+        names = [n for ch in chunks for n in ch]
     if rc != 0:
         ck.obligation(f'assumptions:{props_file}', False, out[-2000:])
         ck.tie_broken.append(f'Print Assumptions failed for {props_file}')
@@ -761,18 +865,122 @@ def theorems_with_axioms(ck: Ck, props_file: str = 'Props/C04.v') -> None:
                 cur.append(m.group(1))
     if cur is not None:
         blocks.append(cur)
+    if union_only and len(blocks) == 1:
+        blocks = [blocks[0]] * len(names)
     if len(blocks) != len(names):
         ck.obligation(f'assumptions:{props_file}', False, f'{len(names)} theorems but {len(blocks)} Print Assumptions blocks')
         return
     for n, b in zip(names, blocks):
         ck.axioms[n] = b
-        ck.obligation(f'theorem:{n}', True, 'Qed; axioms: ' + ('none (closed under the global context)' if not b else ', '.join(b)))
+        ck.obligation(f'theorem:{n}', True, 'Qed; axioms: ' + ('none (closed under the global context)' if not b else
+                      ('within (union over Props/C04.v; per theorem in the thorough tier): ' if union_only else '') + ', '.join(b)))
     allowed = {'ClassicalDedekindReals.sig_forall_dec', 'ClassicalDedekindReals.sig_not_dec',
-               'FunctionalExtensionality.functional_extensionality_dep'}
+               'FunctionalExtensionality.functional_extensionality_dep',
+               'Classical_Prop.classic'}      # Flocq (rounding theorems only)
     used = {a for b in blocks for a in b}
     ck.obligation('assumptions:only-classical-reals', used <= allowed,
                   'axioms used by Props/C04.v: ' + (', '.join(sorted(used)) or 'none') +
                   ('' if used <= allowed else ' -- UNEXPECTED: ' + ', '.join(sorted(used - allowed))))
+
+
+def corr_rounding(ck: Ck) -> None:
+    """The rounding model of Rot/RotRound.v against CPython floats: every tree of _vec_rot / _mat_mul evaluated with exact
+    rationals and a correctly rounded conversion to binary64 after each + - * (= fe_fl rnd64) must give the bits the float
+    evaluation of the same tree gives (which `correspondence:formulas` compares with the implementation), and the distance to
+    the exact rational value must respect the bound of the running error analysis (recomputed here with the same recurrences)."""
+    from fractions import Fraction
+    from srctools.math import Matrix
+    T = trr.trees()
+    n = ck.budget(150, 1500)
+    bad: list[dict] = []
+    worst = Fraction(0)
+    for i in range(n):
+        rng = ck.rng
+        (p, y, r), _ = gen_angle(rng)
+        (p2, y2, r2), _ = gen_angle(rng)
+        A, B = list(snapshot(Matrix.from_angle(p, y, r))), list(snapshot(Matrix.from_angle(p2, y2, r2)))
+        if rng.random() < 0.3:
+            A = rand_mat_vals(rng, 'A')
+        v = gen_vec(rng)
+        fenv = {**env_mat('s', A), **env_mat('o', B), 'v.x': v[0], 'v.y': v[1], 'v.z': v[2]}
+        qenv = {k: Fraction(x) for k, x in fenv.items()}
+        benv = {k: abs(x) for k, x in qenv.items()}
+        for nm, irs in T.items():
+            for k, ir in enumerate(irs):
+                ck.count('rounding_model_evaluations')
+                fl = tr.py_eval(ir, fenv)
+                model = trr.rounded_eval(ir, qenv)
+                exact = trr.exact_eval(ir, qenv)
+                _, bound = trr.err_bound(ir, benv)
+                if bound > 0:
+                    worst = max(worst, abs(model - exact) / bound)
+                if (bits(float(model)) != bits(fl) and not (model == 0 and fl == 0)) or abs(model - exact) > bound:
+                    if len(bad) < 5:
+                        bad.append({'formula': nm, 'entry': k, 'inputs': fenv, 'float': fl, 'rounding_model': float(model),
+                                    'error': float(abs(model - exact)), 'bound': float(bound)})
+        ck.seen(('rounding', tuple(A), tuple(B), v))
+    # from_angle: the arithmetic over the libm results (rounded-real model vs floats, bit for bit), and the distance of the libm
+    # results from the real sin / cos of the real angle (50-digit decimal arithmetic): the hypothesis of c04_from_angle_binary64_error
+    ins, fts = trr.from_angle_trees()
+    worst_in = 0.0
+    for i in range(n):
+        (p, y, r), acls = gen_angle(ck.rng)
+        aenv = {'pitch': p, 'yaw': y, 'roll': r}
+        vals = [tr.py_eval(ir, aenv) for ir in ins]
+        fenv = {f'in.{k}': v for k, v in enumerate(vals)}
+        qenv = {k: Fraction(x) for k, x in fenv.items()}
+        benv = {k: abs(x) for k, x in qenv.items()}
+        for ir, v in zip(ins, vals):
+            deg = aenv[ir[2][2][1]] if ir[2][0] == 'call' and ir[2][1] == 'radians' and ir[2][2][0] == 'var' else None
+            if deg is not None:
+                worst_in = max(worst_in, abs(float(hp_sin_cos(deg)[0 if ir[1] == 'sin' else 1] - Decimal(v))))
+        for k, ir in enumerate(fts):
+            ck.count('rounding_model_evaluations')
+            fl = tr.py_eval(ir, fenv)
+            model = trr.rounded_eval(ir, qenv)
+            exact = trr.exact_eval(ir, qenv)
+            _, bound = trr.err_bound(ir, benv)
+            if bound > 0:
+                worst = max(worst, abs(model - exact) / bound)
+            if (bits(float(model)) != bits(fl) and not (model == 0 and fl == 0)) or abs(model - exact) > bound:
+                if len(bad) < 5:
+                    bad.append({'formula': 'from_angle', 'entry': k, 'inputs': fenv, 'float': fl, 'rounding_model': float(model),
+                                'error': float(abs(model - exact)), 'bound': float(bound)})
+        ck.seen(('rounding-from-angle', p, y, r))
+    ck.extra['rounding_worst_error_over_bound'] = float(worst)
+    ck.extra['from_angle_worst_sin_cos_input_error'] = worst_in
+    ck.obligation('correspondence:rounding-model', not bad,
+                  f'{n} input sets x 12 trees + {n} angles x 9 from_angle trees: exact-rational evaluation with a correctly rounded '
+                  f'binary64 conversion after every + - * (fe_fl rnd64) vs CPython float evaluation bit for bit, and |rounded - exact| '
+                  f'<= fe_err: {len(bad)}+ disagreements; largest observed error / bound = {float(worst):.3f}')
+    ck.obligation('correspondence:from-angle-inputs', worst_in <= 5e-15,
+                  f'{n} angle triples in [-720, 720]: math.sin/cos(math.radians(x)) vs the real sin / cos of x degrees (50 digits): '
+                  f'largest distance {worst_in:.3g} (hypothesis of c04_from_angle_binary64_error instantiated with 5e-15)')
+    if bad:
+        ck.tie_broken.append('correspondence rounding model (fe_fl rnd64 vs CPython floats)')
+        ck.extra['rounding_disagreements'] = bad
+
+
+_PI50 = '3.14159265358979323846264338327950288419716939937510582097494'
+
+
+def hp_sin_cos(deg: float):
+    """(sin, cos) of `deg` degrees (the exact value of the float) with about 50 correct digits: Taylor series in decimal
+    arithmetic after reduction modulo 360 degrees (exact: Decimal(float) and the remainder are exact)."""
+    import decimal
+    with decimal.localcontext() as ctx:
+        ctx.prec = 60
+        d = Decimal(deg) % Decimal(360)
+        x = d * Decimal(_PI50) / Decimal(180)
+        sn, cs, term, k = Decimal(0), Decimal(0), Decimal(1), 0
+        while abs(term) > Decimal(10) ** -58 or k < 4:
+            if k % 2 == 0:
+                cs += term if k % 4 == 0 else -term
+            else:
+                sn += term if k % 4 == 1 else -term
+            k += 1
+            term = term * x / k
+        return +sn, +cs
 
 
 # =============================================================================================== main
@@ -793,7 +1001,9 @@ def run(ck: Ck) -> None:
         'libm atan2 enters the Euler theorems as the hypothesis atan2_spec (cos/sin of atan2 y x are x/|(x,y)|, y/|(x,y)| away '
         'from the origin); math.radians/degrees are d*PI/180 and t*180/PI; float % 360 is x - 360*floor(x/360).',
         'The float literals 0.001 and 0.00001 are read as the rationals 1/1000 and 1/100000.',
-        'inverse(): the theorems say what inverse() returns WHEN it returns; that it returns on every rotation is searched only.',
+        'inverse(): returning on every rotation is proved over the reals (gj_total_ok); in binary64 it is searched only.',
+        'Rounding theorems: binary64 +, -, * are round-to-nearest-even of the exact result (IEEE 754; overflow excluded); the '
+        'rounded-real model is compared bit for bit with CPython on every run.',
         'Vec arithmetic used by inverse() (-=, *, /= generated by exec() templates, componentwise) is not translated; it is '
         'covered by the bit-exact correspondence of the whole method.',
     ]
@@ -810,54 +1020,96 @@ def run(ck: Ck) -> None:
     ok_d = ck.translate('RotDispatch_gen', tr.translate_dispatch)
     ok_i = ck.translate('RotInverse_gen', tri.translate_inverse)
     ok_r = ok_f and ck.translate('RotReified_gen', tr.translate_reified)
+    ok_rr = ok_f and ck.translate('RotRounded_gen', trr.translate_rounded)
     A = tr.analyse() if (ok_f and ok_d) else None
     built = False
     # 1. models and generated objects (definitions only: these compile whatever the source computes)
-    models = ck.build(['Rot/RotGJ.vo', 'Rot/RotGJFloat.vo', 'Rot/RotDispatch.vo', 'Rot/RotReify.vo']
+    models = ck.build(['Rot/RotGJ.vo', 'Rot/RotGJTotal.vo', 'Rot/RotGJFloat.vo', 'Rot/RotDispatch.vo', 'Rot/RotReify.vo', 'Rot/RotRound.vo']
                       + (['Gen/RotFormulas_gen.vo', 'Gen/RotDispatch_gen.vo'] if A is not None else [])
                       + (['Gen/RotReified_gen.vo'] if ok_r else [])
+                      + (['Gen/RotRounded_gen.vo'] if ok_rr else [])
                       + (['Gen/RotInverse_gen.vo'] if ok_i else []))
     # 2. instance obligations: the generated objects are accepted by the decidable tests of the generic theorems
+    # One coqc run evaluates all of them, a second one closes the true ones by vm_compute; reflexivity (the groups whose
+    # generated file is missing are left out, so they cannot take the others down).
+    obs: dict[str, str] = {}
+    imports: list[str] = []
+    evals: list[tuple[str, str]] = []
+
+    def group(imps: list[str], d: dict[str, str]) -> None:
+        obs.update(d)
+        imports.extend(i for i in imps if i not in imports)
     if A is not None and models:
-        ck.instance_obligations(DISP_IMPORTS, {
+        group(DISP_IMPORTS, {
             'dispatch_matmul_rows_ok': 'forallb (fun t => triple_ok t && handled t) (rows_of FMatmul dispatch_table)',
             'dispatch_imatmul_rows_ok': 'forallb (fun t => triple_ok t && handled t) (rows_of FImatmul dispatch_table)',
             'dispatch_reflected_rows_ok': 'forallb (fun t => triple_ok t && handled t) (rows_of FRmatmul dispatch_table)',
             'dispatch_table_complete': 'covered dispatch_table',
             'dispatch_table_ok': 'table_ok dispatch_table',
         })
-        vals = ck.coq_eval(DISP_IMPORTS, ['failing dispatch_table'], name='failing')
-        if vals is not None and vals[0] not in ('[]', 'nil'):
-            ck.extra['dispatch_rows_rejected'] = vals[0]
+        evals.append(('dispatch_rows_rejected', 'failing dispatch_table'))
         ck.extra['dispatch_table_rows'] = len(A['rows'])
         ck.extra['mat_mul_alias_safe'] = A['F']['mat_mul_alias_safe']
     if ok_r and models:
-        ck.instance_obligations(REIFY_IMPORTS, {
+        group(REIFY_IMPORTS, {
             'to_angle_guard_operator_is_gt': 'guard_operator_ok ta_guard_cfg',
             'to_angle_guard_literal_is_0_001': 'guard_literal_ok ta_guard_cfg',
             'to_angle_guard_operand_is_horizontal_length': 'guard_operand_ok ta_guard_cfg',
+            'to_angle_pitch_is_atan2_of_minus_forward_z_and_horizontal_length': 'pitch_ok ta_pitch_main_cfg',
+            'to_angle_gimbal_pitch_is_atan2_of_minus_forward_z_and_horizontal_length': 'pitch_ok ta_pitch_lock_cfg',
             'mat_mul_alias_row_a': 'alias_row_ok 0 mat_mul_self_polys mat_mul_ss_polys',
             'mat_mul_alias_row_b': 'alias_row_ok 1 mat_mul_self_polys mat_mul_ss_polys',
             'mat_mul_alias_row_c': 'alias_row_ok 2 mat_mul_self_polys mat_mul_ss_polys',
             'mat_mul_alias_safe': 'polys_eqb mat_mul_self_polys mat_mul_ss_polys',
-        }, name='reify')
+        })
+    if ok_rr and models:
+        # "up to rounding", quantified: the running error analysis (Rot/RotRound.v, sound for every tree and every rounding with
+        # |rnd t - t| <= u|t| + eta, binary64 via Flocq) accepts today's trees of _vec_rot / _mat_mul with these bounds
+        group(ROUND_IMPORTS, {
+            'vec_rot_rounding_error_below_2e-15_for_unit_inputs':
+                'errs_within (1000001 # 1000000) 1 (2 # 1000000000000000) vec_rot_fe',
+            'vec_rot_rounding_error_below_2e-9_for_components_up_to_1e6':
+                'errs_within (1000001 # 1000000) 1000000 (2 # 1000000000) vec_rot_fe',
+            'mat_mul_rounding_error_below_2e-15_on_rotations': 'errs_within (1000001 # 1000000) 0 (2 # 1000000000000000) mat_mul_fe',
+            'rounded_trees_are_float_computations': 'forallb (fun e => Nat.ltb 0 (fe_ops e)) (vec_rot_fe ++ mat_mul_fe)',
+            # from_angle: the arithmetic alone (exact sin / cos values), and with libm's values within 5e-15 of the real sin / cos
+            'from_angle_arithmetic_rounding_error_below_1e-15': 'errs_within_in 1 0 (1 # 1000000000000000) from_angle_fe',
+            'from_angle_error_below_3e-14_given_sin_cos_within_5e-15':
+                'errs_within_in 1 (5 # 1000000000000000) (3 # 100000000000000) from_angle_fe',
+        })
     if ok_i and models:
-        ck.instance_obligations(GJ_IMPORTS, {
+        # gj_prog_ok: what inverse() returns when it returns; gj_total_ok (Rot/RotGJTotal.v, interval / determinant abstract
+        # interpretation): it RETURNS on every rotation
+        group(GJT_IMPORTS, {
             'inverse_left_block_is_self': 'init_l_ok inverse_prog',
             'inverse_right_block_starts_as_identity': 'init_r_ok inverse_prog',
             'inverse_result_is_right_block': 'out_ok inverse_prog',
             'inverse_indexes_in_range': 'ops_in_range inverse_prog',
             'inverse_left_block_becomes_identity': 'left_becomes_identity inverse_prog',
+            'inverse_skip_guards_fire_only_for_a_zero_multiplier': 'skips_only_exact_zero inverse_prog',
             'inverse_prog_ok': 'gj_prog_ok inverse_prog',
-        }, name='gj')
-        vals = ck.coq_eval(GJ_IMPORTS, ['abs_run (gp_ops inverse_prog) top3'], name='gjabs')
-        if vals is not None:
-            ck.extra['inverse_left_block_final_pattern'] = vals[0]
+            'inverse_pivot_searches_succeed_on_rotations': 'pivots_found inverse_prog',
+            'inverse_divisors_nonzero_on_rotations': 'divisors_nonzero inverse_prog',
+            'inverse_threshold_tests_pass_on_rotations': 'thresholds_passed inverse_prog',
+            'inverse_total_on_rotations': 'gj_total_ok inverse_prog',
+        })
+        evals += [('inverse_left_block_final_pattern', 'abs_run (gp_ops inverse_prog) top3'),
+                  ('inverse_final_intervals_on_rotations', 'total_trace inverse_prog'),
+                  ('inverse_first_operation_not_shown_to_succeed', 'abs2_fail (gp_ops inverse_prog) rot_init')]
         ck.extra['inverse_program'] = [tri.coq_op(o) for o in tri.analyse()['P']['ops']]
+    if obs:
+        ck.instance_obligations(imports, obs, name='inst')
+        vals = ck.coq_eval(imports, [e for _, e in evals], name='extras')
+        if vals is not None:
+            for (k, _), v in zip(evals, vals):
+                v = ' '.join(v.split())
+                if not (k == 'dispatch_rows_rejected' and v in ('[]', 'nil')):
+                    ck.extra[k] = v
     # 3. the proofs about the generated formulas
     if A is not None and models:
         core = ck.build(['Rot/RotAlgebra.vo', 'Rot/RotAliasProofs.vo', 'Rot/RotEulerProofs.vo', 'Rot/RotDispatchProofs.vo',
-                         'Rot/RotGJProofs.vo', 'Rot/RotGJExample.vo'] + (['Rot/RotReifyProofs.vo'] if ok_r else []))
+                         'Rot/RotGJProofs.vo', 'Rot/RotGJTotalProofs.vo', 'Rot/RotGJExample.vo'] + (['Rot/RotReifyProofs.vo'] if ok_r else [])
+                        + (['Rot/RotRoundProofs.vo', 'Rot/RotRoundFlocq.vo', 'Rot/RotRoundTied.vo'] if ok_rr else []))
         built = core and ck.build(['Props/C04.vo'])
         if built:
             theorems_with_axioms(ck)
@@ -867,9 +1119,12 @@ def run(ck: Ck) -> None:
         corr_dispatch(ck, A['F'], A['rows'])
     if ok_i and models:
         corr_inverse(ck)
+    if ok_rr:
+        corr_rounding(ck)
     found: dict[str, tuple[str, dict]] = {}
     search_operands(ck, found)
     search_identities(ck, found)
+    search_composed(ck, found)
     for key, (what, rp) in sorted(found.items()):
         ck.violation(key, what, rp)
     keys = set(found)
@@ -877,16 +1132,44 @@ def run(ck: Ck) -> None:
     if any(k.startswith(('left-operand-mutated', 'right-operand-mutated', 'result-not-fresh', 'value-mismatch', 'unsupported',
                          'exception', 'result-kind')) for k in keys):
         ck.explain('instance:dispatch_')
-    if any(k.startswith(('euler-roundtrip', 'gimbal-bound', 'assoc-vec-angle', 'value-mismatch:Angle', 'value-mismatch:FrozenAngle'))
-           for k in keys):
-        ck.explain('instance:to_angle_guard_')
+    if any(k.startswith(TO_ANGLE_KEYS) for k in keys):
+        ck.explain('instance:to_angle_')
     if any(k.startswith('value-mismatch:Matrix:same-object') for k in keys):
         ck.explain('instance:mat_mul_alias_')
     if any(k.startswith('inverse-') for k in keys):
         ck.explain('instance:inverse_')
         # the translator could not read inverse() (fail closed) AND the search exhibits a concrete wrong inverse
         ck.explain('translate:RotInverse_gen')
+    # a changed _vec_rot / _mat_mul tree changes its error bound too: explained by the concrete wrong value
+    for fn, pref in (('_vec_rot', 'instance:vec_rot_rounding'), ('_mat_mul', 'instance:mat_mul_rounding'),
+                     ('from_angle', 'instance:from_angle_')):
+        if any(k.startswith(FUNCTION_EXPLAINED_BY[fn]) for k in keys):
+            ck.explain(pref)
+    explain_translate(ck, keys)
     explain_build(ck, keys)
+
+
+TO_ANGLE_KEYS = ('euler-roundtrip', 'gimbal-bound', 'composed-roundtrip', 'assoc-vec-angle', 'value-mismatch:Angle',
+                 'value-mismatch:FrozenAngle', 'exception:Angle', 'exception:FrozenAngle')
+# A translator that failed closed names the function it could not read (`<function>: line N: ...`).  The failure is marked
+# as explained only when the search exhibits a concrete failing input of an identity that goes through that function.
+FUNCTION_EXPLAINED_BY = {
+    '_to_angle': TO_ANGLE_KEYS,
+    '_mat_mul': ('assoc-matrix', 'value-mismatch:Matrix', 'convention-own-factors'),
+    '_vec_rot': ('assoc-vec-matrix', 'value-mismatch:Vec', 'value-mismatch:FrozenVec', 'value-mismatch:tuple'),
+    'transpose': ('transpose-formula', 'inverse-vs-transpose'),
+    'from_angle': ('from-angle-', 'convention-'), 'from_pitch': ('from_pitch-formula',), 'from_yaw': ('from_yaw-formula',),
+    'from_roll': ('from_roll-formula',),
+}
+
+
+def explain_translate(ck: Ck, keys: set) -> None:
+    for o in ck.obligations:
+        if o['ok'] or not o['name'].startswith('translate:Rot'):
+            continue
+        m = re.search(r'translator failed closed: ([A-Za-z_]+)[:>]', o['detail'])
+        if m and m.group(1) in FUNCTION_EXPLAINED_BY and any(k.startswith(FUNCTION_EXPLAINED_BY[m.group(1)]) for k in keys):
+            o['explained'] = True
 
 
 # Which concrete violation (key prefix) exhibits the failure of which lemma.  A failed proof build is marked as explained
@@ -894,8 +1177,10 @@ def run(ck: Ck) -> None:
 LEMMA_EXPLAINED_BY = {
     'from_angle_orthonormal': ('from-angle-not-orthonormal',), 'from_angle_det_one': ('from-angle-determinant',),
     'from_angle_obj_eq': ('value-mismatch',), 'from_axis_rotation': ('from_roll-formula', 'from_pitch-formula', 'from_yaw-formula'),
-    'from_angle_convention': ('convention-',), 'axis_fixed': ('from_roll-formula', 'from_pitch-formula', 'from_yaw-formula'),
-    'handedness': ('from_roll-formula', 'from_pitch-formula', 'from_yaw-formula'),
+    # axis_fixed / handedness rotate the unit vectors with the generated vec_rot: a wrong _vec_rot breaks them too
+    'from_angle_convention': ('convention-',),
+    'axis_fixed': ('from_roll-formula', 'from_pitch-formula', 'from_yaw-formula', 'assoc-vec-matrix', 'value-mismatch:Vec'),
+    'handedness': ('from_roll-formula', 'from_pitch-formula', 'from_yaw-formula', 'assoc-vec-matrix', 'value-mismatch:Vec'),
     'mat_mul_assoc': ('assoc-matrix',), 'vec_rot_assoc': ('assoc-vec-matrix',), 'mat_mul_I_l': ('assoc-matrix', 'value-mismatch:Matrix'),
     'mat_mul_I_r': ('assoc-matrix', 'value-mismatch:Matrix'), 'vec_rot_I': ('assoc-vec-matrix', 'value-mismatch:Vec'),
     'det_mul': ('assoc-matrix', 'value-mismatch:Matrix'), 'transpose_involutive': ('transpose-formula',),
@@ -948,6 +1233,11 @@ def replay(data: dict) -> int:
         probs = check_triple(r['form'], r['l'], r['r'], r['alias'], vl, vr)
         print('problems  :', probs or 'none')
         return 1 if probs else 0
+    if r.get('kind') == 'composed':
+        pr = composed_problem(tuple(r['a']), tuple(r['b']), r['form'])
+        print('from_angle', r['a'], '@ from_angle', r['b'], 'form', r['form'])
+        print('problem   :', pr or 'none')
+        return 1 if pr else 0
     if r.get('kind') == 'identity':
         probs = ident_problems(*r['angle'], tuple(r['vector']), tuple(r['second_angle']))
         print('angle', r['angle'], 'vector', r['vector'], 'second angle', r['second_angle'])
